@@ -1,1 +1,4 @@
+pub mod adoc;
 pub mod chars;
+pub mod gen;
+pub mod wf;
